@@ -131,6 +131,8 @@ const TARGETS: &[Target] = &[
     Target { file: "ssz/src/bitfield/bitvector_dynamic.rs", imp: "Bitfield<Dynamic>", tr: "Encode", name: "ssz_append", coq: "bitdyn_ssz_append" },
     Target { file: "ssz/src/bitfield/bitvector_dynamic.rs", imp: "Bitfield<Dynamic>", tr: "Decode", name: "is_ssz_fixed_len", coq: "bitdyn_dec_is_ssz_fixed_len" },
     Target { file: "ssz/src/bitfield/bitvector_dynamic.rs", imp: "Bitfield<Dynamic>", tr: "Decode", name: "from_ssz_bytes", coq: "bitdyn_from_ssz_bytes" },
+    Target { file: "ssz/src/decode.rs", imp: "trait Decode", tr: "", name: "ssz_fixed_len", coq: "decode_default_ssz_fixed_len" },
+    Target { file: "ssz/src/encode.rs", imp: "trait Encode", tr: "", name: "ssz_fixed_len", coq: "encode_default_ssz_fixed_len" },
     Target { file: "ssz/src/decode.rs", imp: "SszDecoderBuilder", tr: "", name: "new", coq: "builder_new" },
     Target { file: "ssz/src/decode.rs", imp: "SszDecoderBuilder", tr: "", name: "register_type", coq: "builder_register_type" },
     Target { file: "ssz/src/decode.rs", imp: "SszDecoderBuilder", tr: "", name: "build", coq: "builder_build" },
@@ -347,6 +349,10 @@ struct Cx {
     borrows: HashMap<String, (String, String)>,
     /// dictionary parameter -> the text of its bounds
     dict_bounds: HashMap<String, String>,
+    /// derive mode: Rust types of local variables (match bindings, lets)
+    var_ty: HashMap<String, String>,
+    /// derive mode: the Rust type the expression being translated is expected to have (`<_>::f(..)`, `decode_next()`)
+    expected_ty: Option<String>,
     /// the dictionary signature of already translated generic functions: coq name -> member names in order
     dict_sigs: HashMap<String, Vec<String>>,
 }
@@ -385,8 +391,50 @@ fn shape(s: &str) -> String {
     out
 }
 
+/// Types defined in the file of derive expansions (derive mode): structs with their fields, enums with
+/// their variants, and which trait functions each impl defines itself (the others are trait defaults).
+#[derive(Default, Debug, Clone)]
+struct UserTypes {
+    structs: HashMap<String, Vec<(String, String)>>,
+    enums: HashMap<String, Vec<(String, Option<String>)>>,
+    defined: std::collections::HashSet<String>, // "Type::Trait::fn"
+}
+static USER: std::sync::OnceLock<UserTypes> = std::sync::OnceLock::new();
+fn user() -> &'static UserTypes {
+    USER.get_or_init(Default::default)
+}
+
+/// Coq type of a Rust type written in a derive program
+fn rty_coq(t: &str) -> Option<String> {
+    let t = t.replace(' ', "");
+    let t = t.trim_start_matches('&').to_string();
+    Some(match t.as_str() {
+        "u8" | "u16" | "u32" | "u64" | "u128" | "usize" => "N".to_string(),
+        "bool" => "bool".to_string(),
+        _ => {
+            if let Some(x) = t.strip_prefix("Vec<").and_then(|x| x.strip_suffix('>')) {
+                let inner = rty_coq(x)?;
+                return Some(if inner == "N" && x == "u8" { "bytes".to_string() } else { format!("(list {})", inner) });
+            }
+            if let Some(x) = t.strip_prefix("Option<").and_then(|x| x.strip_suffix('>')) {
+                return Some(format!("(option {})", rty_coq(x)?));
+            }
+            if t.starts_with("[u8;") {
+                return Some("bytes".to_string());
+            }
+            if user().structs.contains_key(&t) || user().enums.contains_key(&t) {
+                return Some(t);
+            }
+            return None;
+        }
+    })
+}
+
 /// the Coq type of `self` in an impl for a non-record type
 fn self_ty_coq(imp: &str) -> Option<String> {
+    if user().structs.contains_key(imp) || user().enums.contains_key(imp) {
+        return Some(imp.to_string());
+    }
     Some(match imp {
         "u8" | "u16" | "u32" | "u64" | "u128" | "usize" | "NonZeroUsize" | "U256" | "U128" => "N".to_string(),
         "bool" => "bool".to_string(),
@@ -461,6 +509,24 @@ fn is_list_chain(e: &Expr) -> bool {
     }
 }
 
+/// does the expression contain a `return`?
+fn contains_return(e: &Expr) -> bool {
+    struct V(bool);
+    impl<'ast> syn::visit::Visit<'ast> for V {
+        fn visit_expr_return(&mut self, _r: &'ast syn::ExprReturn) {
+            self.0 = true;
+        }
+    }
+    let mut v = V(false);
+    syn::visit::Visit::visit_expr(&mut v, e);
+    v.0
+}
+
+/// "U2_A", "U2" -> "A"
+fn path_last_str(ctor: &str, en: &str) -> String {
+    ctor.strip_prefix(&format!("{}_", en)).unwrap_or(ctor).to_string()
+}
+
 fn strip_refs(e: &Expr) -> &Expr {
     match e {
         Expr::Paren(p) => strip_refs(&p.expr),
@@ -489,7 +555,7 @@ fn int_lit(e: &Expr) -> Option<u128> {
 impl Cx {
     fn new(records: HashMap<String, Vec<String>>, res_fns: HashMap<String, String>) -> Self {
         Cx { fresh: 0, binds: vec![], self_rec: None, records, res_fns, fn_params: vec![], aliases: HashMap::new(), u8ctx: false, mut_methods: vec![], notes: vec![],
-             cur_imp: String::new(), tparams: vec![], var_rec: HashMap::new(), fns: HashMap::new(), ret_option: false, field_types: HashMap::new(), ret_none: "Ok None".to_string(), dict_params: vec![], dict_used: vec![], list_vars: vec![], mut_param: None, borrows: HashMap::new(), dict_bounds: HashMap::new(), dict_sigs: HashMap::new() }
+             cur_imp: String::new(), tparams: vec![], var_rec: HashMap::new(), fns: HashMap::new(), ret_option: false, field_types: HashMap::new(), ret_none: "Ok None".to_string(), dict_params: vec![], dict_used: vec![], list_vars: vec![], mut_param: None, borrows: HashMap::new(), dict_bounds: HashMap::new(), var_ty: HashMap::new(), expected_ty: None, dict_sigs: HashMap::new() }
     }
 
     fn var(&mut self, hint: &str) -> String {
@@ -689,6 +755,10 @@ impl Cx {
                     }
                     return Err(format!("dictionary member {} where a {} function is expected", name, if want == Kind::Comp { "fallible" } else { "pure" }));
                 }
+                if p.path.segments.len() == 2 && user().enums.contains_key(&p.path.segments[0].ident.to_string()) {
+                    let c = format!("{}_{}", p.path.segments[0].ident, path_last(&p.path));
+                    return if want == Kind::Pure { Ok(c) } else { Ok(format!("(fun x => Ok ({} x))", c)) };
+                }
                 if matches!(name.as_str(), "Option::Some" | "Some") {
                     return if want == Kind::Pure { Ok("Some".into()) } else { Ok("(fun x => Ok (Some x))".into()) };
                 }
@@ -705,6 +775,111 @@ impl Cx {
             }
             _ => Err(format!("unsupported function argument: {}", tokens(e))),
         }
+    }
+
+    // ---------------------------------------------------------------------------------------
+    // derive mode: concrete types.  The expanded impls name the types of their fields
+    // (`<u16 as Encode>::ssz_fixed_len()`, `register_type::<Vec<u8>>()`), call trait methods on fields
+    // (`self.a.ssz_bytes_len()`, `encoder.append(&self.a)`) and let inference pick the decoder
+    // (`let a = decoder.decode_next()?; .. Self { a, b }`).  Every such use is resolved to the translated
+    // impl of that type, instantiating generic impls (`Vec<T>`, `Option<T>`) at their argument.
+
+    /// Rust type of an expression, when the derive program makes it evident
+    fn ty_of(&self, e: &Expr) -> Option<String> {
+        match strip_refs(e) {
+            Expr::Path(p) => {
+                let v = path_str(&p.path);
+                if v == "self" { Some(self.cur_imp.clone()) } else { self.var_ty.get(&coq_ident(&v)).cloned() }
+            }
+            Expr::Field(f) => {
+                let owner = self.ty_of(&f.base)?;
+                let fs = user().structs.get(&owner)?;
+                let name = match &f.member { Member::Named(id) => id.to_string(), Member::Unnamed(i) => format!("f{}", i.index) };
+                fs.iter().find(|(n, _)| *n == name).map(|(_, t)| t.clone())
+            }
+            _ => None,
+        }
+    }
+
+    fn prim_prefix(t: &str) -> Option<&'static str> {
+        Some(match t { "u8" => "u8", "u16" => "u16", "u32" => "u32", "u64" => "u64", "u128" => "u128", "usize" => "usize", "bool" => "bool", _ => return None })
+    }
+
+    /// `<ty as tr>::m()` for m a metadata function: a computation
+    fn td_meta(&mut self, ty: &str, tr: &str, m: &str) -> R<String> {
+        let ty = ty.replace(' ', "");
+        let short = if tr == "Encode" { "enc" } else { "dec" };
+        let default_fixed_len = if tr == "Encode" { "encode_default_ssz_fixed_len" } else { "decode_default_ssz_fixed_len" };
+        if let Some(p) = Self::prim_prefix(&ty) {
+            return Ok(format!("{}_{}_{}", p, short, m));
+        }
+        if user().structs.contains_key(&ty) || user().enums.contains_key(&ty) {
+            return Ok(if user().defined.contains(&format!("{}::{}::{}", ty, tr, m)) { format!("{}_{}_{}", ty, short, m) } else if m == "ssz_fixed_len" { default_fixed_len.to_string() } else { return Err(format!("{} does not define {}::{}", ty, tr, m)) });
+        }
+        if let Some(k) = ty.strip_prefix("[u8;").and_then(|x| x.strip_suffix(']')) {
+            return Ok(format!("array_{}_{} {}", short, m, k));
+        }
+        for (pre, name) in [("Vec<", "vec"), ("Option<", "option")] {
+            if ty.starts_with(pre) && ty.ends_with('>') {
+                return Ok(if m == "is_ssz_fixed_len" { format!("{}_{}_is_ssz_fixed_len", name, short) } else { default_fixed_len.to_string() });
+            }
+        }
+        Err(format!("no translated impl of {} for the type {}", tr, ty))
+    }
+
+    /// the arguments a generic translated function takes for its type parameter instantiated at `ty`
+    /// (metadata members are evaluated here and bound; function members are terms)
+    fn td_inst(&mut self, coq: &str, ty: &str) -> R<Vec<String>> {
+        let sig = self.dict_sigs.get(coq).cloned().unwrap_or_default();
+        let tr = if sig.iter().any(|m| m.ends_with("_ssz_append") || m.ends_with("_ssz_bytes_len")) || coq.starts_with("encoder_") { "Encode" } else { "Decode" };
+        let mut args = vec![];
+        for member in sig {
+            let mem = member.split_once('_').map(|(_, b)| b.to_string()).unwrap_or_default();
+            match mem.as_str() {
+                "is_ssz_fixed_len" | "ssz_fixed_len" => {
+                    let c = self.td_meta(ty, tr, &mem)?;
+                    args.push(self.bind(c, "m"));
+                }
+                "ssz_append" | "ssz_bytes_len" | "from_ssz_bytes" => args.push(self.td_fn(ty, &mem)?),
+                other => return Err(format!("cannot instantiate the member {} of {} at {}", other, coq, ty)),
+            }
+        }
+        Ok(args)
+    }
+
+    /// `<ty as _>::m` as a function term, for m in ssz_append / ssz_bytes_len / from_ssz_bytes
+    fn td_fn(&mut self, ty: &str, m: &str) -> R<String> {
+        let ty = ty.replace(' ', "");
+        if let Some(p) = Self::prim_prefix(&ty) {
+            return Ok(format!("{}_{}", p, m));
+        }
+        if user().structs.contains_key(&ty) || user().enums.contains_key(&ty) {
+            return Ok(format!("{}_{}", ty, m));
+        }
+        if let Some(k) = ty.strip_prefix("[u8;").and_then(|x| x.strip_suffix(']')) {
+            return Ok(format!("(array_{} {})", m, k));
+        }
+        for (pre, name) in [("Vec<", "vec"), ("Option<", "option")] {
+            if let Some(inner) = ty.strip_prefix(pre).and_then(|x| x.strip_suffix('>')) {
+                let callee = format!("{}_{}", name, m);
+                // a closed function term: the inner metadata is evaluated inside it
+                let saved = std::mem::take(&mut self.binds);
+                let args = self.td_inst(&callee, inner);
+                let (params, call) = match m {
+                    "ssz_append" => ("x b", "x b"),
+                    "ssz_bytes_len" => ("x", "x"),
+                    _ => ("b", "b"),
+                };
+                let args = match args { Ok(a) => a, Err(e) => { self.binds = saved; return Err(e) } };
+                let body = format!("{} {} {}", callee, args.join(" "), call);
+                let n = self.binds.len();
+                let _ = n;
+                let body = self.wrap(0, body);
+                self.binds = saved;
+                return Ok(format!("(fun {} => {})", params, body.replace('\n', " ")));
+            }
+        }
+        Err(format!("no translated {} for the type {}", m, ty))
     }
 
     /// A generic callee's dictionary members.  A type parameter not given by turbofish is the caller's
@@ -817,6 +992,12 @@ impl Cx {
                 if p.path.segments.len() == 1 && self.tparams.contains(&s) {
                     return Ok((format!("t{}", s), Pure));
                 }
+                if p.path.segments.len() == 2 && user().enums.contains_key(&p.path.segments[0].ident.to_string()) {
+                    return Ok((format!("{}_{}", p.path.segments[0].ident, path_last(&p.path)), Pure));
+                }
+                if s.starts_with("core::panicking::") {
+                    return Ok(("tt".into(), Pure));
+                }
                 Ok((match s.as_str() {
                     "None" => "None".to_string(),
                     "usize::MAX" => "usize_max".to_string(),
@@ -835,6 +1016,11 @@ impl Cx {
                         Ok((format!("({} {})", self.field_proj(&rec, &fname), base), Pure))
                     }
                     Member::Unnamed(i) => {
+                        if let Some(owner) = self.ty_of(&f.base) {
+                            if user().structs.contains_key(&owner) {
+                                return Ok((format!("({}_f{} {})", owner, i.index, base), Pure));
+                            }
+                        }
                         if i.index == 0 && base == "self" && self_ty_coq(&self.cur_imp).as_deref() == Some("bytes") {
                             // a newtype over a byte array (`FixedBytes(pub [u8; N])`, `Bloom(FixedBytes<256>)`, `Bytes`)
                             return Ok(("self".to_string(), Pure));
@@ -944,6 +1130,14 @@ impl Cx {
                 }
                 let (c, k) = self.expr(&t.expr)?;
                 if k != Comp {
+                    // a valued `&mut self` call returning a Result: its errors are already propagated by the bind
+                    if let Expr::MethodCall(mm) = &*t.expr {
+                        if let Some(rec) = self.rec_of_expr(&mm.receiver) {
+                            if self.resolve_method(&rec, &mm.method.to_string()).map(|i| i.valued).unwrap_or(false) {
+                                return Ok((c, k));
+                            }
+                        }
+                    }
                     return Err(format!("`?` applied to something that is not a Result: {}", tokens(&t.expr)));
                 }
                 let v = self.bind(c, "q");
@@ -975,13 +1169,15 @@ impl Cx {
                 let fields = self.records.get(&rec).cloned().ok_or_else(|| format!("struct literal of unknown record {}", rec))?;
                 let mut given: HashMap<String, String> = HashMap::new();
                 for f in &s.fields {
-                    if let Member::Named(id) = &f.member {
-                        if !fields.contains(&id.to_string()) {
-                            continue; // PhantomData
-                        }
-                        let v = self.val(&f.expr)?;
-                        given.insert(id.to_string(), v);
+                    let fname = match &f.member { Member::Named(id) => id.to_string(), Member::Unnamed(i) => format!("f{}", i.index) };
+                    if !fields.contains(&fname) {
+                        continue; // PhantomData
                     }
+                    let saved = self.expected_ty.take();
+                    self.expected_ty = user().structs.get(&rec).and_then(|fs| fs.iter().find(|(n, _)| *n == fname).map(|(_, t)| t.clone()));
+                    let v = self.val(&f.expr);
+                    self.expected_ty = saved;
+                    given.insert(fname, v?);
                 }
                 let mut parts = vec![];
                 for f in &fields {
@@ -1023,10 +1219,43 @@ impl Cx {
                         }
                         return Ok(match name.as_str() {
                             "is_ssz_fixed_len" | "ssz_fixed_len" => (member, Pure),
-                            "ssz_bytes_len" | "ssz_append" => (format!("({} {})", member, args.join(" ")), Pure),
+                            "ssz_bytes_len" | "ssz_append" => (format!("{} {}", member, args.join(" ")), Comp),
                             "from_ssz_bytes" | "try_from_iter" => (format!("{} {}", member, args.join(" ")), Comp),
                             _ => return Err(format!("unsupported dictionary member {}::{}", ty, name)),
                         });
+                    }
+                    // derive mode: `<u16 as Encode>::ssz_fixed_len()`, `<Vec<u8> as Decode>::from_ssz_bytes(slice)`,
+                    // `<_>::from_ssz_bytes(bytes)` (the type is the expected one)
+                    if p.qself.is_some() && ty != "Self" && !user().structs.is_empty() | !user().enums.is_empty() {
+                        let cty = if ty == "_" { self.expected_ty.clone().ok_or("`<_>::f()` without an expected type")? } else { ty.clone() };
+                        let trn = tr.clone().unwrap_or_else(|| if matches!(name.as_str(), "from_ssz_bytes") { "Decode".to_string() } else { "Encode".to_string() });
+                        if name == "default" && c.args.is_empty() {
+                            // `<_>::default()` of a skipped field: the `Default` value of the field's type
+                            let coq = rty_coq(&cty).ok_or(format!("default() of the type {}", cty))?;
+                            let v = match coq.as_str() {
+                                "N" => "0".to_string(),
+                                "bool" => "false".to_string(),
+                                "bytes" if !cty.starts_with('[') => "[]".to_string(),
+                                x if x.starts_with("(list ") => "[]".to_string(),
+                                x if x.starts_with("(option ") => "None".to_string(),
+                                _ => return Err(format!("default() of the type {}", cty)),
+                            };
+                            return Ok((v, Pure));
+                        }
+                        if !(cty == self.cur_imp) {
+                            match name.as_str() {
+                                "is_ssz_fixed_len" | "ssz_fixed_len" => return Ok((self.td_meta(&cty, &trn, &name)?, Comp)),
+                                "from_ssz_bytes" | "ssz_bytes_len" | "ssz_append" => {
+                                    let f = self.td_fn(&cty, &name)?;
+                                    let mut args = vec![];
+                                    for a in &c.args {
+                                        args.push(self.val(a)?);
+                                    }
+                                    return Ok((format!("{} {}", f, args.join(" ")), Comp));
+                                }
+                                _ => {}
+                            }
+                        }
                     }
                     if !ty.is_empty() && ty != "Self" || p.qself.is_some() {
                         let want_ty = if ty == "Self" { self.cur_imp.clone() } else { ty.clone() };
@@ -1047,6 +1276,19 @@ impl Cx {
                         return Ok((format!("t{}", n), Pure));
                     }
                     return Err(format!("{}::to_usize() of a type parameter that is not a type-level number in scope", n));
+                }
+                if f.starts_with("core::panicking::") {
+                    // what `assert!` / `debug_assert!` expand to
+                    return Ok(("Panic".into(), Comp));
+                }
+                if let Expr::Path(pp) = &*c.func {
+                    if pp.path.segments.len() == 2 && c.args.len() == 1 {
+                        let en = pp.path.segments[0].ident.to_string();
+                        if user().enums.contains_key(&en) {
+                            let a = self.val(&c.args[0])?;
+                            return Ok((format!("({}_{} {})", en, path_last(&pp.path), a), Pure));
+                        }
+                    }
                 }
                 match f.as_str() {
                     "Ok" => {
@@ -1231,6 +1473,17 @@ impl Cx {
             let f = self.closure1(&m.args[0], Comp)?;
             return Ok((format!("bind ({}) {}", r, f), Comp));
         }
+        if name == "ssz_append" || name == "ssz_bytes_len" {
+            if let Some(rt) = self.ty_of(&m.receiver) {
+                // derive mode: a field or a matched payload of a known type
+                let f = self.td_fn(&rt, &name)?;
+                let mut args = vec![self.val(&m.receiver)?];
+                for a in &m.args {
+                    args.push(self.val(a)?);
+                }
+                return Ok((format!("{} {}", f, args.join(" ")), Comp));
+            }
+        }
         if (name == "ssz_append" || name == "ssz_bytes_len") && self.rec_of_expr(&m.receiver).is_none() {
             if let Some(pt) = self.prim_type(&m.receiver) {
                 if let Some(info) = self.fns.get(&format!("{}::Encode::{}", pt, name)).cloned() {
@@ -1248,7 +1501,7 @@ impl Cx {
                 for a in &m.args {
                     args.push(self.val(a)?);
                 }
-                return Ok((format!("({}_{} {})", d, name, args.join(" ")), Pure));
+                return Ok((format!("{}_{} {}", d, name, args.join(" ")), Comp));
             }
         }
         // a method of a translated record type (`self.len()`, `result.is_zero()`, `x.clone().into_bytes()`)
@@ -1261,7 +1514,11 @@ impl Cx {
                             if let Expr::Path(pp) = strip_refs(&m.receiver) {
                                 let var = path_str(&pp.path);
                                 let mut args = self.targs(&info, &[])?;
-                                args.extend(self.dict_args(&info.coq)?);
+                                let conc: Option<String> = m.turbofish.as_ref().map(|tf| tf.args.to_token_stream().to_string().replace(' ', "")).or_else(|| self.expected_ty.clone());
+                                match (&conc, self.dict_sigs.get(&info.coq).map(|v| !v.is_empty()).unwrap_or(false)) {
+                                    (Some(ct), true) if !self.dict_params.iter().any(|d| d == ct) => args.extend(self.td_inst(&info.coq, ct)?),
+                                    _ => args.extend(self.dict_args(&info.coq)?),
+                                }
                                 args.push(var.clone());
                                 for a in &m.args {
                                     if matches!(a, Expr::Closure(_)) {
@@ -1429,6 +1686,10 @@ impl Cx {
             "rev" => (format!("(rev {})", r), Pure),
             "enumerate" => (format!("(enumerate_n {})", r), Pure),
             "to_smallvec" | "into_iter" | "into" => (r, Pure),
+            "split_at" => {
+                let a = arg(self, 0)?;
+                (format!("split_at_n {} {}", r, a), Comp)
+            }
             "chunks" => {
                 let a = arg(self, 0)?;
                 (format!("(chunks_n {} {})", r, a), Pure)
@@ -1482,6 +1743,11 @@ impl Cx {
     // statements and tail positions.  `k` finishes the translation with the block's value.
 
     fn tail(&mut self, e: &Expr, k: &mut dyn FnMut(&mut Cx, String) -> R<String>) -> R<String> {
+        // a call that writes through the `&mut Vec<u8>` parameter, as the body of a match arm or a branch:
+        // a statement (the buffer is re-bound to what the call returns), not a value
+        if matches!(e, Expr::MethodCall(_) | Expr::Call(_)) && self.is_buf_call(e) {
+            return self.block(&[Stmt::Expr(e.clone(), Some(Default::default()))], k);
+        }
         match e {
             Expr::Paren(p) => self.tail(&p.expr, k),
             Expr::Block(b) => self.block(&b.block.stmts, k),
@@ -1618,6 +1884,38 @@ impl Cx {
             }
             return Ok(self.wrap(from, out));
         }
+        // a single arm binding a tuple (what `assert_eq!` expands to): a let
+        if m.arms.len() == 1 {
+            if let Pat::Tuple(_) = &m.arms[0].pat {
+                let pat = self.pat_name(&m.arms[0].pat)?;
+                let body = self.tail(&m.arms[0].body, k)?;
+                let out = format!("let {} := {} in\n{}", pat, scrut, body);
+                return Ok(self.wrap(from, out));
+            }
+        }
+        // derive mode: a match on a value of a user enum
+        let scrut_ty = self.ty_of(&m.expr);
+        if let Some(en) = scrut_ty.filter(|t| user().enums.contains_key(t)) {
+            let mut arms = vec![];
+            for arm in &m.arms {
+                let (ctor, bind) = match &arm.pat {
+                    Pat::TupleStruct(ts) if ts.path.segments.len() == 2 && ts.elems.len() == 1 => (format!("{}_{}", en, path_last(&ts.path)), Some(self.pat_name(&ts.elems[0])?)),
+                    Pat::Path(pp) if pp.path.segments.len() == 2 => (format!("{}_{}", en, path_last(&pp.path)), None),
+                    Pat::Ident(id) => (format!("{}_{}", en, id.ident), None),
+                    p => return Err(format!("unsupported pattern on the enum {}: {}", en, tokens(p))),
+                };
+                if let Some(b) = &bind {
+                    let vname = path_last_str(&ctor, &en);
+                    if let Some(pt) = user().enums.get(&en).and_then(|vs| vs.iter().find(|(v, _)| *v == vname).and_then(|(_, t)| t.clone())) {
+                        self.var_ty.insert(b.clone(), pt);
+                    }
+                }
+                let body = self.tail(&arm.body, k)?;
+                arms.push(match bind { Some(b) => format!("| {} {} =>\n{}", ctor, b, body), None => format!("| {} =>\n{}", ctor, body) });
+            }
+            let out = format!("match {} with\n{}\nend", scrut, arms.join("\n"));
+            return Ok(self.wrap(from, out));
+        }
         let mut arms = vec![];
         for arm in &m.arms {
             let pat = match &arm.pat {
@@ -1713,7 +2011,13 @@ impl Cx {
                         }
                     }
                 }
-                let v = self.val(&init.expr)?;
+                let saved_exp = self.expected_ty.take();
+                if let Some(fs) = user().structs.get(&self.cur_imp) {
+                    self.expected_ty = fs.iter().find(|(n, _)| *n == name).map(|(_, t)| t.clone());
+                }
+                let v = self.val(&init.expr);
+                self.expected_ty = saved_exp;
+                let v = v?;
                 match rec {
                     Some(r) => {
                         // `let mut enc = Rec::new(buf, ..)`: the record owns the `&mut` parameter from here on
@@ -1831,6 +2135,11 @@ impl Cx {
         match e {
             Expr::MethodCall(m) if m.method == "ssz_append" && m.args.len() == 1 => {
                 let bufv = match strip_refs(&m.args[0]) { Expr::Path(p) if p.path.segments.len() == 1 => coq_ident(&path_str(&p.path)), _ => return Ok(None) };
+                if let Some(rt) = self.ty_of(&m.receiver) {
+                    let f = self.td_fn(&rt, "ssz_append")?;
+                    let r = self.val(&m.receiver)?;
+                    return Ok(Some((bufv.clone(), format!("{} {} {}", f, r, bufv), true)));
+                }
                 if self.rec_of_expr(&m.receiver).is_some() {
                     return Ok(None);
                 }
@@ -1847,7 +2156,7 @@ impl Cx {
                         self.dict_used.push((d.clone(), "ssz_append".to_string()));
                     }
                     let r = self.val(&m.receiver)?;
-                    return Ok(Some((bufv.clone(), format!("{}_ssz_append {} {}", d, r, bufv), false)));
+                    return Ok(Some((bufv.clone(), format!("{}_ssz_append {} {}", d, r, bufv), true)));
                 }
                 Ok(None)
             }
@@ -1861,7 +2170,7 @@ impl Cx {
                         self.dict_used.push((d.clone(), "ssz_append".to_string()));
                     }
                     let x = self.val(&c.args[0])?;
-                    return Ok(Some((bufv.clone(), format!("{}_ssz_append {} {}", d, x, bufv), false)));
+                    return Ok(Some((bufv.clone(), format!("{}_ssz_append {} {}", d, x, bufv), true)));
                 }
                 // f(.., buf) for a translated function with a `&mut` parameter
                 let (name, ty, nums) = split_fn_path(&pth.path);
@@ -1885,7 +2194,7 @@ impl Cx {
 
     fn is_buf_call(&self, e: &Expr) -> bool {
         match e {
-            Expr::MethodCall(m) if m.method == "ssz_append" && m.args.len() == 1 && self.rec_of_expr(&m.receiver).is_none() =>
+            Expr::MethodCall(m) if m.method == "ssz_append" && m.args.len() == 1 && (self.rec_of_expr(&m.receiver).is_none() || self.ty_of(&m.receiver).is_some()) =>
                 matches!(strip_refs(&m.args[0]), Expr::Path(p) if p.path.segments.len() == 1),
             Expr::Call(c) => match &*c.func {
                 Expr::Path(p) => {
@@ -2043,11 +2352,27 @@ impl Cx {
                     return Err(format!("mutating method of another impl ({})", info.imp));
                 }
                 let mut avs = self.targs(&info, &[])?;
-                avs.extend(self.dict_args(&info.coq)?);
+                // derive mode: `builder.register_type::<u16>()`, `encoder.append(&self.a)`
+                let call_m: Option<&syn::ExprMethodCall> = match e {
+                    Expr::Try(t) => match &*t.expr { Expr::MethodCall(mm) => Some(mm), _ => None },
+                    Expr::MethodCall(mm) if mm.method == "unwrap" || mm.method == "expect" => match &*mm.receiver { Expr::MethodCall(m2) => Some(m2), _ => None },
+                    Expr::MethodCall(mm) => Some(mm),
+                    _ => None,
+                };
+                let conc: Option<String> = call_m.and_then(|mm| {
+                    if let Some(tf) = &mm.turbofish {
+                        return Some(tf.args.to_token_stream().to_string().replace(' ', ""));
+                    }
+                    mm.args.first().and_then(|a| self.ty_of(a))
+                });
+                match (&conc, self.dict_sigs.get(&info.coq).map(|v| !v.is_empty()).unwrap_or(false)) {
+                    (Some(ct), true) if !self.dict_params.iter().any(|d| d == ct) => avs.extend(self.td_inst(&info.coq, ct)?),
+                    _ => avs.extend(self.dict_args(&info.coq)?),
+                }
                 avs.push(var.clone());
                 for a in &args {
                     if matches!(a, Expr::Closure(_)) {
-                        avs.push(self.closure1(a, Kind::Pure)?);
+                        avs.push(self.closure1(a, Kind::Comp)?);
                     } else {
                         avs.push(self.val(a)?);
                     }
@@ -2167,11 +2492,16 @@ impl Cx {
             Expr::Call(c) => {
                 if let Expr::Path(p) = &*c.func {
                     let fname = path_str(&p.path);
+                    if fname.starts_with("core::panicking::") {
+                        // a diverging call (what a failed assertion expands to): nothing after it runs
+                        return Ok("Panic".to_string());
+                    }
                     if self.fn_params.contains(&fname) && c.args.len() == 1 {
                         if let Some(f) = self.self_field(&c.args[0]) {
                             let rec = self.self_rec.clone().unwrap();
                             let cur = format!("({} self)", self.field_proj(&rec, &f));
-                            let upd = self.set_self(&f, &format!("{} {}", coq_ident(&fname), cur))?;
+                            let nb = self.bind(format!("{} {}", coq_ident(&fname), cur), "b");
+                            let upd = self.set_self(&f, &nb)?;
                             let body = self.block(rest, k)?;
                             return Ok(format!("let self := {} in\n{}", upd, body));
                         }
@@ -2181,6 +2511,33 @@ impl Cx {
             }
             // if c { return Err(..) }   (no else) followed by the rest;  or a conditional mutation
             Expr::If(i) => {
+                // an `if` / `else` that only assigns plain locals and never returns: its value is the tuple of
+                // those locals, re-bound for the rest of the block (the rest is not duplicated into the branches)
+                if !rest.is_empty() && i.else_branch.is_some() && !contains_return(&Expr::If(i.clone())) {
+                    let mut mutated = self.loop_state(&i.then_branch);
+                    if let Some((_, eb)) = &i.else_branch {
+                        if let Expr::Block(b) = &**eb {
+                            for v in self.loop_state(&b.block) {
+                                if !mutated.contains(&v) {
+                                    mutated.push(v);
+                                }
+                            }
+                        }
+                    }
+                    let plain = !mutated.is_empty() && mutated.iter().all(|v| v != "self" && !self.var_rec.contains_key(v) && Some(v) != self.mut_param.as_ref() && !self.aliases.contains_key(v));
+                    if plain {
+                        let mutated: Vec<String> = mutated.iter().map(|v| coq_ident(v)).collect();
+                        let st_pat = if mutated.len() == 1 { mutated[0].clone() } else { format!("'({})", mutated.join(", ")) };
+                        let st_val = if mutated.len() == 1 { mutated[0].clone() } else { format!("({})", mutated.join(", ")) };
+                        let ret = format!("Ok {}", st_val);
+                        let from = self.binds.len();
+                        let c = self.if_tail(i, &mut |_cx, _v| Ok(ret.clone()))?;
+                        let c = self.wrap(from, c);
+                        let st = self.bind(format!("({})", c), "st");
+                        let body = self.block(rest, k)?;
+                        return Ok(format!("let {} := {} in\n{}", st_pat, st, body));
+                    }
+                }
                 // an `if` followed by further statements has type (): every branch that does not
                 // return falls through to `rest` with the (possibly updated) state
                 let mut k2 = |cx: &mut Cx, _v: String| cx.block(rest, k);
@@ -2387,9 +2744,71 @@ fn coq_type(t: &Type, records: &HashMap<String, Vec<String>>) -> R<String> {
 }
 
 fn main() {
-    let repo = std::env::args().nth(1).unwrap_or_else(|| "/repo".into());
+    let argv: Vec<String> = std::env::args().collect();
+    let repo = argv.get(1).cloned().unwrap_or_else(|| "/repo".into());
+    // derive mode: `rs2v <repo> --derive <expanded.rs> <out.v>`: also translate the `Encode` / `Decode` impls
+    // that the derive macros of <repo> expanded to for a file of sample definitions
+    let derive_args: Option<(String, String)> = argv.iter().position(|a| a == "--derive").and_then(|i| Some((argv.get(i + 1)?.clone(), argv.get(i + 2)?.clone())));
     let mut files: HashMap<String, syn::File> = HashMap::new();
+    let mut dyn_targets: Vec<Target> = vec![];
+    let mut dyn_records: Vec<(&'static str, &'static str)> = vec![];
+    let mut derive_order: Vec<String> = vec![];
+    if let Some((exp, _)) = &derive_args {
+        let src = std::fs::read_to_string(exp).unwrap_or_default();
+        // inside the crate the paths are unqualified: drop the `ssz::` / `std::result::` qualifiers
+        let src = src.replace("ssz::", "").replace("std::result::Result", "Result");
+        match syn::parse_file(&src) {
+            Ok(f) => {
+                let mut u = UserTypes::default();
+                for it in &f.items {
+                    match it {
+                        Item::Struct(st) => {
+                            let mut fs = vec![];
+                            for (i, fld) in st.fields.iter().enumerate() {
+                                let n = fld.ident.as_ref().map(|x| x.to_string()).unwrap_or_else(|| format!("f{}", i));
+                                fs.push((n, tokens_full(&fld.ty).replace(' ', "")));
+                            }
+                            u.structs.insert(st.ident.to_string(), fs);
+                            derive_order.push(st.ident.to_string());
+                        }
+                        Item::Enum(en) => {
+                            let vs = en.variants.iter().map(|v| (v.ident.to_string(), v.fields.iter().next().map(|f| tokens_full(&f.ty).replace(' ', "")))).collect();
+                            u.enums.insert(en.ident.to_string(), vs);
+                            derive_order.push(en.ident.to_string());
+                        }
+                        Item::Impl(imp) => {
+                            if let (Some((_, tp, _)), Type::Path(sp)) = (&imp.trait_, &*imp.self_ty) {
+                                let tr = path_last(tp);
+                                let ty = path_last(&sp.path);
+                                if tr == "Encode" || tr == "Decode" {
+                                    for ii in &imp.items {
+                                        if let ImplItem::Fn(m) = ii {
+                                            u.defined.insert(format!("{}::{}::{}", ty, tr, m.sig.ident));
+                                            let short = if tr == "Encode" { "enc" } else { "dec" };
+                                            let name = m.sig.ident.to_string();
+                                            let coq = if name == "is_ssz_fixed_len" || name == "ssz_fixed_len" { format!("{}_{}_{}", ty, short, name) } else { format!("{}_{}", ty, name) };
+                                            dyn_targets.push(Target { file: "<derive expansion>", imp: leak(ty.clone()), tr: leak(tr.clone()), name: leak(name), coq: leak(coq) });
+                                        }
+                                    }
+                                }
+                            }
+                        }
+                        _ => {}
+                    }
+                }
+                for n in u.structs.keys() {
+                    dyn_records.push(("<derive expansion>", leak(n.clone())));
+                }
+                let _ = USER.set(u);
+                files.insert("<derive expansion>".to_string(), f);
+            }
+            Err(e) => println!("(* rs2v: cannot parse the derive expansion: {} *)", e),
+        }
+    }
+    let all_targets: Vec<&Target> = TARGETS.iter().chain(dyn_targets.iter()).collect();
+    let _ = &dyn_records;
     let mut wanted: Vec<&str> = TARGETS.iter().map(|t| t.file).collect();
+    let _ = &all_targets;
     wanted.extend(RECORDS.iter().map(|r| r.0));
     wanted.extend(CONSTS.iter().map(|r| r.0));
     for f in wanted {
@@ -2478,6 +2897,52 @@ fn main() {
         out.push('\n');
     }
 
+    // derive mode: the sample definitions themselves (records for structs, inductive types for enums), in
+    // the order of the file, into the derive output
+    let mut out_d = String::new();
+    for name in &derive_order {
+        if let Some(fs) = user().structs.get(name) {
+            let mut cfs = vec![];
+            let mut ok = true;
+            for (f, t) in fs {
+                match rty_coq(t) {
+                    Some(ct) => cfs.push((f.clone(), ct)),
+                    None => {
+                        let _ = writeln!(out_d, "(* rs2v: UNTRANSLATABLE struct {}: field type {} *)\n", name, t);
+                        ok = false;
+                    }
+                }
+            }
+            if ok {
+                records.insert(name.clone(), cfs.iter().map(|(f, _)| f.clone()).collect());
+                let _ = writeln!(out_d, "Record {} := {{ {} }}.", name, cfs.iter().map(|(f, t)| format!("{}_{} : {}", name, f, t)).collect::<Vec<_>>().join("; "));
+                for (f, t) in &cfs {
+                    let parts: Vec<String> = cfs.iter().map(|(g, _)| if g == f { format!("{}_{} := v", name, g) } else { format!("{}_{} := {}_{} r", name, g, name, g) }).collect();
+                    let _ = writeln!(out_d, "Definition set_{}_{} (r : {}) (v : {}) : {} := {{| {} |}}.", name, f, name, t, name, parts.join("; "));
+                }
+                out_d.push('\n');
+                rec_types.push((name.clone(), cfs));
+            }
+        } else if let Some(vs) = user().enums.get(name) {
+            let mut arms = vec![];
+            let mut ok = true;
+            for (v, pt) in vs {
+                match pt {
+                    None => arms.push(format!("{}_{}", name, v)),
+                    Some(t) => match rty_coq(t) {
+                        Some(ct) => arms.push(format!("{}_{} (x : {})", name, v, ct)),
+                        None => ok = false,
+                    },
+                }
+            }
+            if ok {
+                let _ = writeln!(out_d, "Inductive {} := {}.\n", name, arms.join(" | "));
+            } else {
+                let _ = writeln!(out_d, "(* rs2v: UNTRANSLATABLE enum {}: a variant payload type *)\n", name);
+            }
+        }
+    }
+
     let rec_field_recs: Vec<(String, Vec<(String, String)>)> = rec_types.iter().map(|(n, fs)| (n.clone(), fs.iter().filter(|(_, t)| records.contains_key(t)).cloned().collect())).collect();
 
     // the targets: signatures first (so that calls between them resolve), then bodies
@@ -2513,12 +2978,23 @@ fn main() {
         }
         v
     };
-    for t in TARGETS {
+    for t in all_targets.iter().cloned() {
         let mut hit = None;
         if let Some(f) = files.get(t.file) {
             for it in &f.items {
                 match it {
                     Item::Fn(func) if t.imp.is_empty() && func.sig.ident == t.name => hit = Some((func.sig.clone(), (*func.block).clone(), String::new(), vec![], vec![])),
+                    Item::Trait(trt) if t.imp == format!("trait {}", trt.ident) => {
+                        for ti in &trt.items {
+                            if let syn::TraitItem::Fn(m) = ti {
+                                if m.sig.ident == t.name {
+                                    if let Some(b) = &m.default {
+                                        hit = Some((m.sig.clone(), b.clone(), String::new(), vec![], vec![]));
+                                    }
+                                }
+                            }
+                        }
+                    }
                     Item::Impl(imp) if !t.imp.is_empty() => {
                         let tr = imp.trait_.as_ref().map(|(_, p, _)| path_last(p)).unwrap_or_default();
                         if tr != t.tr {
@@ -2590,7 +3066,7 @@ fn main() {
         }
     }
 
-    let mut defs: Vec<(String, String, String)> = vec![];
+    let mut defs: Vec<(String, String, String, bool)> = vec![];
     let mut dict_sigs: HashMap<String, Vec<String>> = HashMap::new();
     for Found { t, sig, block, imp_key, tparams, n_impl, dict_params } in &found {
         let _ = n_impl;
@@ -2686,7 +3162,7 @@ fn main() {
                     } else if tys.len() == 1 && tys.chars().all(|c| c.is_uppercase()) {
                         // a generic `F: Fn(&mut Vec<u8>)` parameter
                         cx.fn_params.push(name.clone());
-                        params.push(format!("({} : bytes -> bytes)", name));
+                        params.push(format!("({} : bytes -> outcome bytes)", name));
                     } else {
                         if matches!(&*pt.ty, Type::Reference(r) if r.mutability.is_some()) && matches!(sig.output, ReturnType::Default) {
                             mut_param = Some(name.clone());
@@ -2754,8 +3230,8 @@ fn main() {
                             dparams.push(match m {
                                 "is_ssz_fixed_len" => format!("({}_{} : bool)", d, m),
                                 "ssz_fixed_len" => format!("({}_{} : N)", d, m),
-                                "ssz_bytes_len" => format!("({}_{} : A_{} -> N)", d, m, d),
-                                "ssz_append" => format!("({}_{} : A_{} -> bytes -> bytes)", d, m, d),
+                                "ssz_bytes_len" => format!("({}_{} : A_{} -> outcome N)", d, m, d),
+                                "ssz_append" => format!("({}_{} : A_{} -> bytes -> outcome bytes)", d, m, d),
                                 "try_from_iter" => {
                                     // `Container: TryFromIter<T>`: the item type is the bound's argument
                                     let b = cx.dict_bounds.get(d).cloned().unwrap_or_default();
@@ -2783,11 +3259,11 @@ fn main() {
                 all_params.extend(dparams);
                 all_params.extend(params[n_t..].iter().cloned());
                 let _ = writeln!(text, "Definition {} {} :=\n{}.\n", t.coq, all_params.join(" "), indent(&b));
-                defs.push((t.coq.to_string(), text, b));
+                defs.push((t.coq.to_string(), text, b, t.file == "<derive expansion>"));
             }
             Err(e) => {
                 let _ = writeln!(text, "(* rs2v: UNTRANSLATABLE {} :: {}: {} *)\n", t.file, src_name, e.replace('"', "'").replace("*)", "* )").replace("(*", "( *"));
-                defs.push((t.coq.to_string(), text, String::new()));
+                defs.push((t.coq.to_string(), text, String::new(), t.file == "<derive expansion>"));
             }
         }
     }
@@ -2808,23 +3284,27 @@ fn main() {
         false
     };
     let mut done: Vec<bool> = vec![false; defs.len()];
-    fn emit(i: usize, defs: &Vec<(String, String, String)>, names: &Vec<String>, done: &mut Vec<bool>, out: &mut String, uses: &dyn Fn(&str, &str) -> bool, depth: usize) {
+    fn emit(i: usize, defs: &Vec<(String, String, String, bool)>, names: &Vec<String>, done: &mut Vec<bool>, out: &mut String, out_d: &mut String, uses: &dyn Fn(&str, &str) -> bool, depth: usize) {
         if done[i] || depth > 64 {
             return;
         }
         done[i] = true;
         for (j, n) in names.iter().enumerate() {
             if j != i && !done[j] && uses(&defs[i].2, n) {
-                emit(j, defs, names, done, out, uses, depth + 1);
+                emit(j, defs, names, done, out, out_d, uses, depth + 1);
             }
         }
-        out.push_str(&defs[i].1);
+        if defs[i].3 { out_d.push_str(&defs[i].1) } else { out.push_str(&defs[i].1) }
     }
     for i in 0..defs.len() {
-        emit(i, &defs, &names, &mut done, &mut out, &uses, 0);
+        emit(i, &defs, &names, &mut done, &mut out, &mut out_d, &uses, 0);
     }
     out.push_str("End Gen.\n");
     print!("{}", out);
+    if let Some((_, outp)) = &derive_args {
+        let text = format!("(* @generated by /verif/rs2v from what the derive macros of /repo expand to for the sample definitions of\n   /verif/derive_samples -- do not edit.  Every definition is a syntactic translation of one function of an\n   expanded `impl Encode` / `impl Decode` (rules: rs2v/src/main.rs). *)\nFrom SSZ Require Import Base RustSem Generated.\nImport Gen.\nOpen Scope N_scope.\n\nModule GenD.\n\n{}End GenD.\n", out_d);
+        let _ = std::fs::write(outp, text);
+    }
 }
 
 /// `macro_rules! m { ($a: kind, $b: kind) => { items } }` with a single rule and no repetitions, invoked at
@@ -2935,6 +3415,10 @@ fn norm_type(t: &Type) -> String {
     let s = tokens_full(t).replace(' ', "");
     let s = s.replace("<'a>", "").replace("<'_>", "").replace("'a,", "").replace("'_,", "");
     s
+}
+
+fn leak(s: String) -> &'static str {
+    Box::leak(s.into_boxed_str())
 }
 
 fn tokens_full<T: quote::ToTokens>(t: &T) -> String {
